@@ -158,8 +158,15 @@ func (pe *PathEnum) prepare() {
 					return
 				}
 			case *ssa.DebugRef:
+			case *ssa.MakeClosure:
+				// bound into a closure that is only deferred and that never resets the cell to nil (it may wrap
+				// or replace an error that is already set, or set one when recovering): the nil-ness of what the
+				// function body stored is preserved, which is all the path results are used for
+				if !deferredOnlyNonNilWriter(r, a) {
+					return
+				}
 			default:
-				return // field/index address, call argument, closure binding, ...
+				return // field/index address, call argument, other closure binding, ...
 			}
 		}
 		pe.locals[a] = true
@@ -617,4 +624,55 @@ func appendInt(b []byte, k int64) []byte {
 		b = appendInt(b, k/10)
 	}
 	return append(b, byte('0'+k%10))
+}
+
+// deferredOnlyNonNilWriter: mc is used only as the function of defer statements, and inside it the free variable
+// bound to a is loaded or assigned non-nil values only.
+func deferredOnlyNonNilWriter(mc *ssa.MakeClosure, a *ssa.Alloc) bool {
+	if mc.Referrers() == nil {
+		return false
+	}
+	for _, ref := range *mc.Referrers() {
+		if _, ok := ref.(*ssa.Defer); !ok {
+			return false
+		}
+	}
+	fn, ok := mc.Fn.(*ssa.Function)
+	if !ok {
+		return false
+	}
+	var fv *ssa.FreeVar
+	for i, b := range mc.Bindings {
+		if b == ssa.Value(a) && i < len(fn.FreeVars) {
+			fv = fn.FreeVars[i]
+		}
+	}
+	if fv == nil || fv.Referrers() == nil {
+		return false
+	}
+	for _, ref := range *fv.Referrers() {
+		switch r := ref.(type) {
+		case *ssa.UnOp:
+			if r.Op != token.MUL {
+				return false
+			}
+		case *ssa.Store:
+			if r.Addr != ssa.Value(fv) {
+				return false
+			}
+			if c, isC := r.Val.(*ssa.Const); isC && c.Value == nil {
+				return false // resets to nil
+			}
+			switch v := r.Val.(type) {
+			case *ssa.Call, *ssa.MakeInterface:
+				_ = v // a freshly made error value
+			default:
+				return false
+			}
+		case *ssa.DebugRef:
+		default:
+			return false
+		}
+	}
+	return true
 }
